@@ -34,6 +34,7 @@ def cases(draw, method):
     base.pop('ops')
     base['history'] = draw(history(method))
     base['lr'] = draw(st.sampled_from([0.01, 0.05, 0.2]))
+    base['eval_first'] = draw(st.booleans())
     return base
 
 
@@ -46,27 +47,35 @@ def apply_option(method, m, name, val):
         m.update_softmax_options(**{name: val})
 
 
-def observe(ad: Adapter, m, res, tag):
-    """Eval-mode observations after the usual forward pass."""
+def observe(ad: Adapter, m, res, tag, eval_first=False):
+    """Training-mode and eval-mode observations (soft / Gumbel sampling depends on temperature
+    and flags; eval-mode uses the arg-max decisions).  eval_first: the very first forward pass
+    after restoring is an eval-mode one (validation right after resuming), so nothing a
+    training-mode pass would refresh is refreshed before the outputs are compared."""
     import torch
     x = ad.probe(seed=5)
-    # training-mode view first (soft / Gumbel sampling depends on temperature and flags)
-    m.train()
-    torch.manual_seed(4241)
-    with torch.no_grad():
-        yt = must(res, f'{tag}-train-forward', ng.call, m, x)
-    if yt is None:
-        return None
-    train_costs = {n: float(m.get_cost(n)) for n in ad.specs}
+    obs = {}
+    for phase in (('eval', 'train') if eval_first else ('train', 'eval')):
+        if phase == 'train':
+            m.train()
+            torch.manual_seed(4241)
+            with torch.no_grad():
+                yt = must(res, f'{tag}-train-forward', ng.call, m, x)
+            if yt is None:
+                return None
+            obs['train_output'] = yt.clone()
+            obs['train_costs'] = {n: float(m.get_cost(n)) for n in ad.specs}
+        else:
+            m.eval()
+            torch.manual_seed(4242)
+            with torch.no_grad():
+                y = must(res, f'{tag}-forward', ng.call, m, x)
+            if y is None:
+                return None
+            obs['output'] = y.clone()
+            obs['costs'] = {n: float(m.get_cost(n)) for n in ad.specs}
+            obs['summary'] = repr(m.summary())
     m.eval()
-    torch.manual_seed(4242)
-    with torch.no_grad():
-        y = must(res, f'{tag}-forward', ng.call, m, x)
-    if y is None:
-        return None
-    obs = {'output': y.clone(), 'train_output': yt.clone(), 'train_costs': train_costs}
-    obs['costs'] = {n: float(m.get_cost(n)) for n in ad.specs}
-    obs['summary'] = repr(m.summary())
     # whether export succeeds is the business of C01/C02/C03/C08: here only original == restored
     try:
         e = m.export()
@@ -124,6 +133,7 @@ def oracle(case) -> Result:
         res.discarded = 'training-diverged-to-non-finite-parameters'
         return res
     # checkpoint
+    ckpt_training = A.training
     buf = io.BytesIO()
     torch.save(A.state_dict(), buf)
     buf.seek(0)
@@ -142,8 +152,9 @@ def oracle(case) -> Result:
     except RuntimeError as e:
         res.bad('load-state-dict-failed', message=str(e)[:300])
         return res
-    oa = observe(ad, A, res, 'original')
-    ob = observe(ad, B, res, 'restored')
+    ef = bool(case.get('eval_first', False))
+    oa = observe(ad, A, res, 'original', ef)
+    ob = observe(ad, B, res, 'restored', ef)
     if oa is None or ob is None:
         return res
     if not same(oa['output'], ob['output']):
@@ -168,7 +179,8 @@ def oracle(case) -> Result:
     res.nontrivial = (steps >= 1 and changed) or bool(opts)
     res.ev(f"steps:{min(steps, 4)}", *[f"opt:{k}" for k in opts],
            'decision-changed' if changed else 'decision-unchanged',
-           'checkpoint-in-train-mode' if A.training else 'checkpoint-in-eval-mode')
+           'checkpoint-in-train-mode' if ckpt_training else 'checkpoint-in-eval-mode',
+           'first-pass-after-restore:eval' if ef else 'first-pass-after-restore:train')
     res.obs = {'steps': steps, 'options': opts, 'state_dict_entries': len(sd)}
     return res
 
